@@ -275,3 +275,10 @@ fn test_mul_usize() {
     assert_eq!(GF(5) * 1, GF(5));
     assert_eq!(GF(5) * 2, GF(5) + GF(5));
 }
+
+#[cfg(datamatrix_verif)]
+pub(super) mod verif {
+    pub fn tables() -> (&'static [u8; 256], &'static [u8; 255]) {
+        (&super::LOG, &super::ANTI_LOG)
+    }
+}
